@@ -99,6 +99,10 @@ def build_region(lat_case):
     if ctor == "ctor" or lat_case.get("flags") is not None:
         polys = [Polygon(b) for b in regions.compute_vertices(origins, dhf)]
         mask = None if lat_case.get("flags") is None else numpy.array(lat_case["flags"])
+        if mask is not None:
+            # the per-cell flags arrive in whatever container the caller has: integer array, list, tuple, float array
+            kind = (len(cells) + int(mask.sum())) % 4
+            mask = [mask, [int(v) for v in mask], tuple(int(v) for v in mask), mask.astype(float)][kind]
         reg = regions.CartesianGrid2D(polys, dhf, mask=mask)
     else:
         reg = regions.CartesianGrid2D.from_origins(origins, dh=dhf)
